@@ -358,7 +358,7 @@ fn gen_tcp(r: &mut Rng, extras: bool) -> Vec<Vec<Tok>> {
     for _ in 0..len {
         if live.len() < 2 { ops.push(conn_op(next_id)); live.push(next_id); next_id += 1; }
         let c = *r.pick(&live);
-        let roll = if extras && r.chance(1, 7) { 99 } else { r.below(100) };
+        let roll = if extras && r.chance(1, 7) { 99 } else if r.chance(1, 12) { 90 } else { r.below(100) };
         match roll {
             0..=19 => ops.push(cmd(c, if r.chance(1, 6) { b"subscribe" } else { b"SUBSCRIBE" }, &names(r, &chs, 3))),
             20..=35 => ops.push(cmd(c, b"PSUBSCRIBE", &names(r, &pats, 3))),
@@ -374,7 +374,40 @@ fn gen_tcp(r: &mut Rng, extras: bool) -> Vec<Vec<Tok>> {
             85..=87 => ops.push(drain_op(c)),
             88 => ops.push(cmd(c, b"PING", &[])),          // a subscribed connection still serves commands
             89 => { ops.push(cmd(c, b"QUIT", &[])); live.retain(|x| *x != c); }   // closes, subscriptions included
-            90 => ops.push(cmd(c, b"SET", &[b"k".to_vec(), b"v".to_vec()])),
+            90 => if r.chance(1, 3) { ops.push(cmd(c, b"SET", &[b"k".to_vec(), b"v".to_vec()])) } else {
+                // a transaction (51742a5): everything but the control commands is queued - nothing is delivered and no
+                // subscription changes until EXEC; DISCARD or a WATCH-aborted EXEC drop it.  Requests inside MULTI go
+                // through CMD (one reply each: QUEUED), EXEC through SUBCMD (the client may receive its own messages
+                // before the EXEC reply).  At most one UNSUBSCRIBE and one PUNSUBSCRIBE per transaction, named ones with
+                // sorted names (their confirmations inside the EXEC reply are compared after sorting runs).
+                ops.push(drain_op(c));
+                let watch = r.chance(1, 4);
+                if watch { ops.push(cmd_op(c, &[b"WATCH", b"wk"])); }
+                ops.push(cmd_op(c, &[b"MULTI"]));
+                let (mut did_unsub, mut did_punsub) = (false, false);
+                for _ in 0..1 + r.below(5) {
+                    match r.below(12) {
+                        0..=3 => { let ch = r.pick(&chs).to_vec(); let pl = payload(r, &mut serial); ops.push(cmd_op(c, &[b"PUBLISH", &ch, &pl])); }
+                        4..=5 => { let ns = names(r, &chs, 3); let mut a: Vec<&[u8]> = vec![b"SUBSCRIBE"]; for x in &ns { a.push(x); } ops.push(cmd_op(c, &a)); }
+                        6 => { let ns = names(r, &pats, 2); let mut a: Vec<&[u8]> = vec![b"PSUBSCRIBE"]; for x in &ns { a.push(x); } ops.push(cmd_op(c, &a)); }
+                        7 if !did_unsub => { did_unsub = true; let mut ns = if r.chance(1, 2) { names(r, &chs, 3) } else { vec![] }; ns.sort(); ns.dedup();
+                                             let mut a: Vec<&[u8]> = vec![b"UNSUBSCRIBE"]; for x in &ns { a.push(x); } ops.push(cmd_op(c, &a)); }
+                        8 if !did_punsub => { did_punsub = true; let mut ns = if r.chance(1, 2) { names(r, &pats, 2) } else { vec![] }; ns.sort(); ns.dedup();
+                                              let mut a: Vec<&[u8]> = vec![b"PUNSUBSCRIBE"]; for x in &ns { a.push(x); } ops.push(cmd_op(c, &a)); }
+                        9 => ops.push(cmd_op(c, &[b"SET", b"k", b"1"])),
+                        10 => ops.push(cmd_op(c, &[b"SUBSCRIBE"])),                 // queued all the same; the arity error comes at EXEC
+                        _ => ops.push(cmd_op(c, &[b"PING"])),
+                    }
+                }
+                // another client meanwhile: touches the watched key, or subscribes (no PUBLISH: the transaction's
+                // client reads one frame per request)
+                if live.len() > 1 { let o = *live.iter().find(|x| **x != c).unwrap();
+                    if watch && r.chance(1, 2) { ops.push(cmd(o, b"SET", &[b"wk".to_vec(), b"x".to_vec()])); }
+                    else if r.chance(1, 3) { ops.push(cmd(o, b"SUBSCRIBE", &names(r, &chs, 2))); } }
+                if r.chance(1, 5) { ops.push(cmd_op(c, &[b"DISCARD"])); ops.push(drain_op(c)); }
+                else { ops.push(cmd(c, b"EXEC", &[])); }
+                for d in live.clone() { if d != c && r.chance(2, 3) { ops.push(drain_op(d)); } }
+            },
             91..=92 => { // malformed
                 match r.below(5) {
                     0 => ops.push(cmd(c, b"SUBSCRIBE", &[])), 1 => ops.push(cmd(c, b"PSUBSCRIBE", &[])),
@@ -394,7 +427,7 @@ fn gen_tcp(r: &mut Rng, extras: bool) -> Vec<Vec<Tok>> {
                 if r.chance(2, 3) { ops.push(conn_op(next_id)); live.push(next_id); next_id += 1; }
             }
             _ if extras => {
-                match r.below(4) {
+                match r.below(3) {
                     0 => { // after QUIT the id is dead: whatever is sent to it is not answered
                         ops.push(cmd(c, b"QUIT", &[])); live.retain(|x| *x != c); ops.push(cmd(c, b"PING", &[])); ops.push(drain_op(c)); }
                     1 => { // pipelined: replies owed before a SUBSCRIBE, in one chunk
@@ -407,14 +440,7 @@ fn gen_tcp(r: &mut Rng, extras: bool) -> Vec<Vec<Tok>> {
                         V::cmd(&[b"ECHO", b"before"]).wire(&mut w); V::cmd(&[b"PUBLISH", *r.pick(&chs), &payload(r, &mut serial)]).wire(&mut w); V::cmd(&[b"PING"]).wire(&mut w);
                         ops.push(subraw_op(c, &w));
                     }
-                    _ => { // inside MULTI the pub/sub commands run at once (class tx-immediate); one reply frame each
-                        // (CMD reads one frame: the connection must not receive its own publish)
-                        ops.push(cmd(c, b"UNSUBSCRIBE", &[])); ops.push(cmd(c, b"PUNSUBSCRIBE", &[]));
-                        ops.push(cmd_op(c, &[b"MULTI"])); ops.push(cmd_op(c, &[b"SET", b"k", b"1"]));
-                        if r.chance(1, 2) { ops.push(cmd_op(c, &[b"SUBSCRIBE", *r.pick(&chs)])); } else { ops.push(cmd_op(c, &[b"PUBLISH", *r.pick(&chs), &payload(r, &mut serial)])); }
-                        ops.push(cmd_op(c, &[if r.chance(1, 2) { b"EXEC" } else { b"DISCARD" }]));
-                        ops.push(drain_op(c));
-                    }
+                    _ => ops.push(drain_op(c)),
                 }
             }
             _ => ops.push(drain_op(c)),
@@ -448,86 +474,140 @@ fn tcp_witnesses() -> Vec<Case> {
     ]
 }
 
-/// Property oracle on the implementation's outputs, server level (cases made of CONN / SUBCMD / DRAIN /
-/// CLOSE only): acknowledgements with the right counts (also when nothing is subscribed), PUBLISH reply =
-/// number of matching subscriptions, and for every subscriber the pushed frames it has received at each
-/// collection point = exactly the matching messages published since, in publish order, bytes intact.
+/// Property oracle on the implementation's outputs, server level (cases made of CONN / CLOSE / SUBCMD / DRAIN
+/// and CMD inside transactions): acknowledgements with the right counts (also when nothing is subscribed),
+/// PUBLISH reply = number of matching subscriptions, and for every subscriber the pushed frames it has received
+/// at each collection point = exactly the matching messages published since, in publish order, bytes intact.
+/// Transactions (51742a5): inside MULTI every request answers QUEUED and has no effect; DISCARD and a
+/// WATCH-aborted EXEC drop the queue; EXEC runs it - messages are delivered then (to the client itself before
+/// the EXEC reply), confirmations and counts are the elements of the EXEC reply.
+struct JSt { subs: BTreeMap<i128, (Vec<Vec<u8>>, Vec<Vec<u8>>)>, queue: BTreeMap<i128, Vec<V>>,
+             deviated: bool }   // a PUBLISH met a pattern whose class syntax this matcher reads differently from Redis (finding glob-class-end)
+/// effect of one command of client `id` outside MULTI (or at EXEC): (frames pushed to itself, reply frames)
+fn j_apply(st: &mut JSt, id: i128, req: &[V]) -> Option<(Vec<V>, Vec<V>)> {
+    let bulk = |x: &[u8]| V::Bulk(x.to_vec());
+    let cmd = match req.first() { Some(V::Bulk(x)) => x.to_ascii_uppercase(), _ => vec![] };
+    let args: Option<Vec<Vec<u8>>> = req[1..].iter().map(|a| if let V::Bulk(x) = a { Some(x.clone()) } else { None }).collect();
+    let err = V::Error(b"ERR".to_vec());
+    let total = |s: &(Vec<Vec<u8>>, Vec<Vec<u8>>)| (s.0.len() + s.1.len()) as i64;
+    let mut own = vec![]; let mut rep = vec![];
+    match (&cmd[..], args) {
+        (b"SUBSCRIBE", a) | (b"PSUBSCRIBE", a) => {
+            let chan = cmd == b"SUBSCRIBE";
+            match a { Some(a) if !a.is_empty() => { let e = st.subs.get_mut(&id).unwrap();
+                for nme in a { { let set = if chan { &mut e.0 } else { &mut e.1 }; if !set.contains(&nme) { set.push(nme.clone()); } }
+                    rep.push(V::Array(vec![bulk(if chan { b"subscribe" } else { b"psubscribe" }), V::Bulk(nme), V::Int(total(e))])); } }
+                _ => rep.push(err) }
+        }
+        (b"UNSUBSCRIBE", a) | (b"PUNSUBSCRIBE", a) => {
+            let chan = cmd == b"UNSUBSCRIBE"; let kind: &[u8] = if chan { b"unsubscribe" } else { b"punsubscribe" };
+            match a { None => rep.push(err),
+                Some(a) => { let e = st.subs.get_mut(&id).unwrap();
+                    let named = !a.is_empty();
+                    let mut list = if named { a } else { let mut l = (if chan { &e.0 } else { &e.1 }).clone(); l.sort(); l };
+                    if !named && list.is_empty() { rep.push(V::Array(vec![bulk(kind), V::NullBulk, V::Int(total(e))])); }
+                    for nme in list.drain(..) { { let set = if chan { &mut e.0 } else { &mut e.1 }; set.retain(|x| *x != nme); }
+                        rep.push(V::Array(vec![bulk(kind), V::Bulk(nme), V::Int(total(e))])); } } }
+        }
+        (b"PUBLISH", Some(a)) if a.len() == 2 => {
+            let (ch, msg) = (&a[0], &a[1]); let mut count = 0;
+            let ids: Vec<i128> = st.subs.keys().cloned().collect();
+            let mut deviated = false;
+            for d in ids {
+                let e = &st.subs[&d]; let mut fr = vec![];
+                if e.0.contains(ch) { fr.push(V::Array(vec![bulk(b"message"), V::Bulk(ch.clone()), V::Bulk(msg.clone())])); }
+                if e.1.iter().any(|p| p.contains(&b'[') && redis_match(p, ch) != pattern_matches(p, ch)) { deviated = true; }
+                let mut ps: Vec<&Vec<u8>> = e.1.iter().filter(|p| redis_match(p, ch)).collect(); ps.sort();
+                for p in ps { fr.push(V::Array(vec![bulk(b"pmessage"), V::Bulk(p.clone()), V::Bulk(ch.clone()), V::Bulk(msg.clone())])); }
+                count += fr.len() as i64;
+                if d == id { own.extend(fr); } else { st.queue.get_mut(&d).unwrap().extend(fr); }
+            }
+            if deviated { st.deviated = true; }
+            rep.push(V::Int(count));
+        }
+        (b"PUBLISH", _) => rep.push(err),
+        (b"PING", _) => rep.push(V::Simple(b"PONG".to_vec())),
+        (b"SET", _) => rep.push(V::Simple(b"OK".to_vec())),
+        _ => return None,
+    }
+    Some((own, rep))
+}
+
 fn judge_tcp(c: &Case, outs: &[Vec<Tok>]) -> Vec<String> {
     let mut fails = vec![];
     if !c.id.starts_with("s-") { return fails; }
-    type Subs = (Vec<Vec<u8>>, Vec<Vec<u8>>);          // channels, patterns (insertion order irrelevant)
-    let mut subs: BTreeMap<i128, Subs> = BTreeMap::new();
-    let mut queue: BTreeMap<i128, Vec<V>> = BTreeMap::new();   // frames owed to each live client, in publish order
-    let mut deviated = false;                                   // a PUBLISH met a pattern of class glob-class-end
-    let bulk = |x: &[u8]| V::Bulk(x.to_vec());
+    let mut st = JSt { subs: BTreeMap::new(), queue: BTreeMap::new(), deviated: false };
+    let mut tx: BTreeMap<i128, Vec<Vec<V>>> = BTreeMap::new();          // open transactions: queued requests
+    let mut watching: BTreeMap<i128, BTreeSet<Vec<u8>>> = BTreeMap::new(); let mut dirty: BTreeSet<i128> = BTreeSet::new();
+    let classy = |st: &JSt| st.deviated;
     for (k, (op, out)) in c.ops.iter().zip(outs.iter()).enumerate() {
         let name = tok_bytes(&op[0]).to_vec();
         match &name[..] {
-            b"CONN" => { let id = tok_int(&op[1]); subs.insert(id, (vec![], vec![])); queue.insert(id, vec![]); }
-            b"CLOSE" => { let id = tok_int(&op[1]); subs.remove(&id); queue.remove(&id); }
+            b"CONN" => { let id = tok_int(&op[1]); st.subs.insert(id, (vec![], vec![])); st.queue.insert(id, vec![]); }
+            b"CLOSE" => { let id = tok_int(&op[1]); st.subs.remove(&id); st.queue.remove(&id); tx.remove(&id); watching.remove(&id); dirty.remove(&id); }
+            b"CMD" => {
+                // one request, one frame read: used inside transactions (and for WATCH / MULTI / DISCARD)
+                let id = tok_int(&op[1]);
+                if !st.subs.contains_key(&id) { continue; }
+                let mut p = 3;
+                let req = match V::dec(op, &mut p) { Some(V::Array(l)) => l, _ => continue };
+                let cmd = match req.first() { Some(V::Bulk(x)) => x.to_ascii_uppercase(), _ => vec![] };
+                let mut pos = 0; let got = V::dec(out, &mut pos);
+                let reply = if let Some(q) = tx.get_mut(&id) {
+                    match &cmd[..] {
+                        b"DISCARD" => { tx.remove(&id); watching.remove(&id); dirty.remove(&id); V::Simple(b"OK".to_vec()) }
+                        b"MULTI" | b"WATCH" => V::Error(b"ERR".to_vec()),
+                        b"EXEC" | b"UNWATCH" => continue,
+                        _ => { q.push(req.clone()); V::Simple(b"QUEUED".to_vec()) }
+                    }
+                } else {
+                    match &cmd[..] {
+                        b"MULTI" => { tx.insert(id, vec![]); V::Simple(b"OK".to_vec()) }
+                        b"WATCH" => { for a in &req[1..] { if let V::Bulk(x) = a { watching.entry(id).or_default().insert(x.clone()); } } V::Simple(b"OK".to_vec()) }
+                        _ => continue,
+                    }
+                };
+                // whatever was pushed to the client and not read yet comes first
+                let mut all = st.queue.get_mut(&id).map(std::mem::take).unwrap_or_default(); all.push(reply);
+                let head = all.remove(0); *st.queue.get_mut(&id).unwrap() = all;
+                if got.as_ref() != Some(&head) { fails.push(format!("FAIL case={} op={} inside a transaction: expected QUEUED / OK and no effect", c.id, k)); return fails; }
+            }
             b"SUBCMD" | b"DRAIN" => {
                 let id = tok_int(&op[1]);
-                if !subs.contains_key(&id) { continue; }
-                // decode the collected frames
+                if !st.subs.contains_key(&id) { continue; }
                 let mut got = vec![]; let mut pos = 1; let mut odd = out.is_empty() || !matches!(out[0], Tok::I(_));
                 while !odd && pos < out.len() { if matches!(out[pos], Tok::B(_)) { odd = true; break; } match V::dec(out, &mut pos) { Some(v) => got.push(v), None => { odd = true; } } }
                 if odd { fails.push(format!("FAIL case={} op={} timeout / garbage / closed while collecting frames", c.id, k)); continue; }
-                let mut expect: Vec<V> = queue.get_mut(&id).map(std::mem::take).unwrap_or_default();
+                let mut expect: Vec<V> = st.queue.get_mut(&id).map(std::mem::take).unwrap_or_default();
                 let mut quit = false;
                 if &name[..] == b"SUBCMD" {
                     let mut p = 3;
                     let req = match V::dec(op, &mut p) { Some(V::Array(l)) => l, _ => continue };
                     let cmd = match req.first() { Some(V::Bulk(x)) => x.to_ascii_uppercase(), _ => vec![] };
-                    let args: Option<Vec<Vec<u8>>> = req[1..].iter().map(|a| if let V::Bulk(x) = a { Some(x.clone()) } else { None }).collect();
-                    let err = V::Error(b"ERR".to_vec());
-                    let total = |s: &Subs| (s.0.len() + s.1.len()) as i64;
-                    match (&cmd[..], args) {
-                        (b"SUBSCRIBE", a) | (b"PSUBSCRIBE", a) => {
-                            let chan = cmd == b"SUBSCRIBE";
-                            match a { Some(a) if !a.is_empty() => { let e = subs.get_mut(&id).unwrap();
-                                for nme in a { { let set = if chan { &mut e.0 } else { &mut e.1 }; if !set.contains(&nme) { set.push(nme.clone()); } }
-                                    expect.push(V::Array(vec![bulk(if chan { b"subscribe" } else { b"psubscribe" }), V::Bulk(nme), V::Int(total(e))])); } }
-                                _ => expect.push(err) }
-                        }
-                        (b"UNSUBSCRIBE", a) | (b"PUNSUBSCRIBE", a) => {
-                            let chan = cmd == b"UNSUBSCRIBE"; let kind: &[u8] = if chan { b"unsubscribe" } else { b"punsubscribe" };
-                            match a { None => expect.push(err),
-                                Some(a) => { let e = subs.get_mut(&id).unwrap();
-                                    let named = !a.is_empty();
-                                    let mut list = if named { a } else { let mut l = (if chan { &e.0 } else { &e.1 }).clone(); l.sort(); l };
-                                    if !named && list.is_empty() { expect.push(V::Array(vec![bulk(kind), V::NullBulk, V::Int(total(e))])); }
-                                    for nme in list.drain(..) { { let set = if chan { &mut e.0 } else { &mut e.1 }; set.retain(|x| *x != nme); }
-                                        expect.push(V::Array(vec![bulk(kind), V::Bulk(nme), V::Int(total(e))])); } } }
-                        }
-                        (b"PUBLISH", Some(a)) if a.len() == 2 => {
-                            let (ch, msg) = (&a[0], &a[1]); let mut count = 0;
-                            let ids: Vec<i128> = subs.keys().cloned().collect();
-                            for d in ids {
-                                let e = &subs[&d]; let mut fr = vec![];
-                                if e.0.contains(ch) { fr.push(V::Array(vec![bulk(b"message"), V::Bulk(ch.clone()), V::Bulk(msg.clone())])); }
-                                // where the class syntax of this matcher differs from Redis (the first ']' ends a class): finding glob-class-end
-                                if e.1.iter().any(|p| p.contains(&b'[') && redis_match(p, ch) != pattern_matches(p, ch)) { deviated = true; }
-                                let mut ps: Vec<&Vec<u8>> = e.1.iter().filter(|p| redis_match(p, ch)).collect(); ps.sort();
-                                for p in ps { fr.push(V::Array(vec![bulk(b"pmessage"), V::Bulk(p.clone()), V::Bulk(ch.clone()), V::Bulk(msg.clone())])); }
-                                count += fr.len() as i64;
-                                if d == id { expect.extend(fr); } else { queue.get_mut(&d).unwrap().extend(fr); }
+                    if cmd == b"SET" { if let Some(V::Bulk(key)) = req.get(1) { for (w, keys) in &watching { if keys.contains(key) { dirty.insert(*w); } } } }
+                    if cmd == b"QUIT" { expect.push(V::Simple(b"OK".to_vec())); quit = true; }
+                    else if cmd == b"EXEC" {
+                        match tx.remove(&id) {
+                            None => expect.push(V::Error(b"ERR".to_vec())),
+                            Some(q) => {
+                                let aborted = dirty.remove(&id); watching.remove(&id);
+                                if aborted { expect.push(V::NullArray); } else {
+                                    let mut elems = vec![];
+                                    for qr in &q { match j_apply(&mut st, id, qr) { Some((own, rep)) => { expect.extend(own); elems.extend(rep); } None => { return fails; } } }
+                                    expect.push(V::Array(elems));
+                                }
                             }
-                            expect.push(V::Int(count));
                         }
-                        (b"PUBLISH", _) => expect.push(err),
-                        (b"PING", _) => expect.push(V::Simple(b"PONG".to_vec())),
-                        (b"QUIT", _) => { expect.push(V::Simple(b"OK".to_vec())); quit = true; }
-                        (b"SET", _) => expect.push(V::Simple(b"OK".to_vec())),
-                        _ => continue,
+                    } else {
+                        match j_apply(&mut st, id, &req) { Some((own, rep)) => { expect.extend(own); expect.extend(rep); } None => continue }
                     }
                 }
-                if quit { if tok_int(&out[0]) != 1 { fails.push(format!("FAIL case={} op={} the connection stays open after QUIT", c.id, k)); } subs.remove(&id); queue.remove(&id); }
+                if quit { if tok_int(&out[0]) != 1 { fails.push(format!("FAIL case={} op={} the connection stays open after QUIT", c.id, k)); } st.subs.remove(&id); st.queue.remove(&id); tx.remove(&id); }
                 if got != expect {
-                    let classy = deviated;
+                    let cl = classy(&st);
                     fails.push(format!("FAIL case={} op={} frames received by client {} differ from acknowledgements / matching messages in publish order (expected {}, got {}){}",
-                        c.id, k, id, expect.len(), got.len(), if classy { " class=glob-class-end" } else { "" }));
-                    // a known class also shifts what the other clients are owed: stop judging this case
-                    if classy { return fails; }
+                        c.id, k, id, expect.len(), got.len(), if cl { " class=glob-class-end" } else { "" }));
+                    if cl { return fails; }
                 }
             }
             _ => {}
